@@ -299,4 +299,166 @@ def check_dh(ctx):
                samples=[cases[1][:100], cases[-1][:100]])
 
 
-SUBCHECKS = {"C10": [check_dh]}
+# --------------------------------------------------------------------------
+# C11: HMAC_DRBG
+
+DRBG_SRCS = ["alg/sha256.c", "util/insecure_memzero.c", "util/warnp.c"]
+BOUNDARY_LENS = [0, 1, 31, 32, 33, 63, 64, 65, 95, 96, 97, 255, 256, 257, 1000, 4097]
+
+
+def gen_drbg(ctx):
+    """returns (heavy cases, light cases); heavy = tens of seconds of extracted HMACs each"""
+    r = ctx.rng
+
+    def ent(n=None):
+        n = n if n is not None else r.choice([48, 48, 64, 32, 40, 56, 100])
+        return hx(r.randrange(256) for _ in range(n))
+
+    def line(oracle, reqs):
+        return "drbg %s %s" % (",".join(oracle) if oracle else "-", ",".join(str(x) for x in reqs) if reqs else "-")
+
+    heavy, light = [], []
+    # --- chunking at GENERATE_MAXLEN ---
+    heavy.append(line([ent(48)], [65536])); ctx.count("drbg.req.65536")
+    heavy.append(line([ent(64)], [65537])); ctx.count("drbg.req.65537")
+    if not ctx.quick:
+        heavy.append(line([ent()], [65535])); ctx.count("drbg.req.65535")
+        heavy.append(line([ent()], [200000])); ctx.count("drbg.req.200000")
+        heavy.append(line([ent()], [131072, 5])); ctx.count("drbg.req.131072")
+    # --- runs of 600 small requests: crosses the reseeds before generate calls 257 and 513 ---
+    for _ in range(ctx.n(1, 4)):
+        reqs = [r.choice([0, 1, 1, 5, 16, 31, 32, 33, 40]) for _ in range(600)]
+        heavy.append(line([ent(48), ent(32), ent(), ent()], reqs))
+        ctx.count("drbg.run600")
+    # --- failure of the entropy source at a reseed: call 257 fails, the next call reseeds ---
+    heavy.append(line([ent(), "f", ent(32), ent()], [1] * 255 + [2, 3, 4, 5]))
+    heavy.append(line([ent(), "f", "f"], [1] * 254 + [40, 33, 7, 7, 7]))          # then exhausted
+    ctx.count("drbg.fail.reseed", 2)
+    if not ctx.quick:
+        # reseed needed in the middle of a multi-chunk request, entropy fails there
+        heavy.append(line([ent(), "f", ent()], [1] * 255 + [65537 + 10, 9]))
+        heavy.append(line([ent(), ent(), "f", ent()], [1] * 256 + [3] * 255 + [8, 8, 8]))
+        ctx.count("drbg.fail.reseed", 2)
+    # --- boundary lengths, one and several requests ---
+    for n in BOUNDARY_LENS:
+        light.append(line([ent()], [n])); ctx.count("drbg.req.boundary")
+    for _ in range(ctx.n(25, 600)):
+        reqs = [r.choice(BOUNDARY_LENS[:13] + [r.randrange(0, 300)]) for _ in range(r.randrange(1, 7))]
+        light.append(line([ent()], reqs)); ctx.count("drbg.req.sequence")
+    # --- failure at instantiation: first call fails, instantiated must stay 0, later calls retry ---
+    light.append(line(["f", ent()], [10, 10, 0, 33])); ctx.count("drbg.fail.instantiate")
+    light.append(line(["f", "f", ent()], [0, 5, 5])); ctx.count("drbg.fail.instantiate")
+    light.append(line([], [7, 7])); ctx.count("drbg.fail.exhausted")
+    light.append(line(["f"], [0, 0, 1])); ctx.count("drbg.fail.instantiate")
+    light.append(line([ent(10)], [20])); ctx.count("drbg.entropy.short-zero-padded")
+    light.append(line([ent()], [])); ctx.count("drbg.no-request")
+    return heavy, light
+
+
+def gen_fill(ctx):
+    r = ctx.rng
+    cases = []
+    for _ in range(ctx.n(120, 3000)):
+        n = r.choice([0, 1, 2, 31, 32, 48, 48, 48, 100])
+        ans, left = [], n
+        for _ in range(r.randrange(0, 6)):
+            k = r.randrange(10)
+            if k == 0:
+                ans.append("e"); ctx.count("fill.error")
+            elif k == 1:
+                ans.append("z"); ctx.count("fill.eof")
+            else:
+                ln = r.choice([1, 1, 2, max(1, left), max(1, left // 2), left + 3, 48])
+                ans.append(hx(r.randrange(256) for _ in range(ln))); ctx.count("fill.short-or-full")
+                left = max(0, left - ln)
+        cases.append("fill %d %s" % (n, ",".join(ans) if ans else "-"))
+    return cases
+
+
+def par(*fns):
+    """run the thunks concurrently, return their results in order"""
+    out = [None] * len(fns)
+
+    def work(i, f):
+        out[i] = f()
+    ths = [threading.Thread(target=work, args=(i, f)) for i, f in enumerate(fns)]
+    for t in ths:
+        t.start()
+    for t in ths:
+        t.join()
+    return out
+
+
+def strip_ent(l):
+    return l.split(" ent=")[0]
+
+
+def check_drbg(ctx):
+    sub = "drbg"
+    none_h = os.path.join(vlib.VERIF, "harness", "cpuconfig", "none.h")
+    exe, err = vlib.build_c("drv_drbg_asan", "drv_drbg.c", DRBG_SRCS, cpuconfig=none_h, asan=True)
+    if not exe:
+        ctx.fail(sub, "build", "", "C driver does not build: " + err)
+        return
+    fexe, err = vlib.build_c("drv_drbg_fill", "drv_drbg.c", ["util/warnp.c"], cflags=["-DDRV_FILL"],
+                             wraps=["read"], cpuconfig=none_h, asan=True)
+    if not fexe:
+        ctx.fail(sub, "build", "", "C driver (entropy_read_fill) does not build: " + err)
+        return
+    mexe, err = vlib.build_model("drbg")
+    if not mexe:
+        ctx.fail(sub, "tie", "", err)
+        return
+    env = {"ASAN_OPTIONS": "detect_leaks=1:abort_on_error=0"}
+    if getattr(ctx, "replay", None) and ctx.replay.get("failing_input", {}).get("sub", "").startswith(sub):
+        heavy, light, fills = [], [ctx.replay["failing_input"]["case"]], []
+        if light[0].startswith("fill"):
+            heavy, light, fills = [], [], light
+    else:
+        heavy, light = gen_drbg(ctx)
+        light = corpus_cases("drbg", ("drbg",)) + light
+        fills = corpus_cases("drbg", ("fill",)) + gen_fill(ctx)
+    # the spec is run on everything except (quick tier) the two 65536-byte generates, which cost
+    # ~20 s of extracted HMACs each; those are compared with the model only (proved = spec)
+    spec_heavy = [c for c in heavy if ctx.n(not re.search(r" 6553[67]$", c), True)]
+    cases = heavy + light
+    (impl, st), (model_h, _), (spec_h, _), (model_l, _), (spec_l, _) = par(
+        lambda: vlib.run_sharded(exe, cases, env=env, timeout=900),
+        lambda: vlib.run_sharded(mexe, heavy, shards=len(heavy) or 1, timeout=1500),
+        lambda: vlib.run_sharded(mexe, ["spec " + c for c in spec_heavy], shards=len(spec_heavy) or 1, timeout=1500),
+        lambda: vlib.run_sharded(mexe, light, shards=4, timeout=900),
+        lambda: vlib.run_sharded(mexe, ["spec " + c for c in light], shards=4, timeout=900))
+    vlib.sanitizer_reports(ctx, sub, st)
+    sh = dict(zip(spec_heavy, spec_h))
+    model = model_h + model_l
+    spec = [sh.get(c) for c in heavy] + spec_l
+    # the spec has no notion of the individual entropy_read calls: compare it without the ent= part
+    nd = vlib.tri_compare(ctx, sub, cases, [strip_ent(a) for a in impl], [strip_ent(m) for m in model], spec,
+                          describe=lambda c: c if len(c) < 900 else c[:900] + "...")
+    if nd == 0:
+        vlib.compare(ctx, sub + ".entropy-calls", cases, impl, model,
+                     describe=lambda c: c if len(c) < 900 else c[:900] + "...",
+                     property_pred=lambda c, a, b: (True, None))
+    ctx.record(sub, cases, set((c[:200], a[:200]) for c, a in zip(cases, impl)),
+               "crypto_entropy_read (crypto_entropy.c #included into the driver, built with the `none` CPU "
+               "configuration, entropy_read scripted) vs the extracted model and vs the SP 800-90A spec over the "
+               "hash area's HMAC_SHA256_spec: per request return code and buffer, final Key/V/reseed_counter/"
+               "instantiated, oracle entries consumed, lengths of the entropy_read calls; requests {0,1,31,32,33,"
+               "63..65,95..97,255..257,1000,4097,65536,65537 (+65535, 131072, 200000 thorough)}, runs of 600 small "
+               "requests across the reseeds before generate calls 257 and 513, entropy failure at instantiation, at "
+               "a reseed, repeated, exhausted; non-trivial = distinct (case, result)",
+               samples=[light[0][:160] if light else "", heavy[-1][:160] if heavy else ""])
+    # util/entropy.c read loop
+    if fills:
+        fi, st = vlib.run_sharded(fexe, fills, env=env)
+        vlib.sanitizer_reports(ctx, sub + ".fill", st)
+        fm, _ = vlib.run_sharded(mexe, fills, shards=4)
+        vlib.tri_compare(ctx, sub + ".fill", fills, fi, fm, None)
+        ctx.record(sub + ".fill", fills, set(zip(fills, fi)),
+                   "entropy_read_fill (util/entropy.c #included, --wrap=read) vs the extracted model on scripted "
+                   "read() answers: short reads, exact, longer than asked, 0 (EOF), -1, script exhausted; the wrapper "
+                   "also checks that each read() asks exactly for the unfilled rest",
+                   samples=[fills[0], fills[-1]])
+
+
+SUBCHECKS = {"C10": [check_dh], "C11": [check_drbg]}
